@@ -5,6 +5,7 @@ start-up step, every body of the session (any trace of process events with any
 ending), every capability / env / profiling combination, every core count.
 -/
 import RB.Model.Denoise
+import RB.Proofs.Lemmas.Denoise
 import Mathlib.Analysis.SpecialFunctions.Log.Basic
 import Mathlib.Analysis.Complex.ExponentialBounds
 
@@ -171,6 +172,160 @@ theorem c20_restore_after_processes_partial (prof : Bool) (rep : Report) (body :
 -- non-vacuity: a body that ends what it starts
 example : openProcs (([BodyEv.start 1, .stop 1, .start 2, .sudoKill 2, .stop 2]).map .body) [] = [] := by decide
 
+/-! ## the parallel scheduler: the main thread restores while worker threads execute -/
+
+theorem takeFrom_perm (i : Nat) (ws : List (List BodyEv)) (e : BodyEv) (ws' : List (List BodyEv))
+    (h : takeFrom i ws = some (e, ws')) : (e :: ws'.flatten).Perm ws.flatten := by
+  induction ws generalizing i ws' with
+  | nil => cases i <;> simp [takeFrom] at h
+  | cons w ws ih =>
+    cases i with
+    | zero =>
+      cases w with
+      | nil => simp [takeFrom] at h
+      | cons x xs =>
+        simp only [takeFrom, Option.some.injEq, Prod.mk.injEq] at h
+        obtain ⟨rfl, rfl⟩ := h
+        simp
+    | succ i =>
+      simp only [takeFrom, Option.map_eq_some_iff] at h
+      obtain ⟨p, hp, hpe⟩ := h
+      obtain ⟨pe, pws⟩ := p
+      simp only [Prod.mk.injEq] at hpe
+      obtain ⟨rfl, rfl⟩ := hpe
+      have := ih i pws hp
+      simp only [List.flatten_cons]
+      exact (List.perm_middle.symm).trans (List.Perm.append_left w this)
+
+/-- whatever the schedule, the global order contains exactly the workers' events -/
+theorem c20_interleave_perm (sched : List Nat) (ws : List (List BodyEv)) :
+    (interleave sched ws).Perm ws.flatten := by
+  induction sched generalizing ws with
+  | nil => simp [interleave]
+  | cons i is ih =>
+    simp only [interleave]
+    cases h : takeFrom i ws with
+    | none => exact ih ws
+    | some p =>
+      obtain ⟨e, ws'⟩ := p
+      exact (List.Perm.cons e (ih ws')).trans (takeFrom_perm i ws e ws' h)
+
+theorem openIn_append (a b : List BodyEv) (acc : List Nat) :
+    openIn (a ++ b) acc = openIn b (openIn a acc) := by
+  induction a generalizing acc with
+  | nil => rfl
+  | cons e es ih => cases e <;> simp [openIn, ih]
+
+theorem openIn_abortTail (w : Bool) (run cur : List Nat) :
+    openIn (abortTail w run) cur = cur.filter (fun x => x ∉ run) := by
+  induction run generalizing cur with
+  | nil => simp [abortTail, openIn]
+  | cons i rest ih =>
+    have : abortTail w (i :: rest) =
+        (if w then [BodyEv.sudoKill i] else []) ++ [BodyEv.stop i] ++ abortTail w rest := by
+      simp [abortTail]
+    rw [this, openIn_append, openIn_append]
+    have h1 : openIn (if w then [BodyEv.sudoKill i] else []) cur = cur := by
+      cases w <;> simp [openIn]
+    rw [h1]
+    simp only [openIn, ih, List.filter_filter]
+    congr 1
+    funext x
+    simp only [List.mem_cons, not_or]
+    by_cases h1 : x = i <;> by_cases h2 : x ∈ rest <;> simp [h1, h2]
+
+def bodyOf : List Ev → List BodyEv
+  | [] => []
+  | .body b :: es => b :: bodyOf es
+  | _ :: es => bodyOf es
+
+theorem bodyOf_map (es : List BodyEv) : bodyOf (es.map .body) = es := by
+  induction es with
+  | nil => rfl
+  | cons e es ih => simp [bodyOf, ih]
+
+theorem bodyOf_append (a b : List Ev) : bodyOf (a ++ b) = bodyOf a ++ bodyOf b := by
+  induction a with
+  | nil => rfl
+  | cons e es ih => cases e <;> simp [bodyOf, ih]
+
+theorem openProcs_eq_openIn (es : List Ev) (acc : List Nat) :
+    openProcs es acc = (openIn (bodyOf es) acc.reverse).reverse := by
+  induction es generalizing acc with
+  | nil => simp [openProcs, bodyOf, openIn]
+  | cons e es ih =>
+    cases e with
+    | sudoMinimize p => simpa [openProcs, bodyOf] using ih acc
+    | sudoRestore a b => simpa [openProcs, bodyOf] using ih acc
+    | body be =>
+      cases be with
+      | start i => simp [openProcs, bodyOf, openIn, ih]
+      | stop i => simp [openProcs, bodyOf, openIn, ih, List.filter_reverse]
+      | sudoKill i => simpa [openProcs, bodyOf, openIn] using ih acc
+
+/-- The repaired parallel scheduler, for every report that changed a setting, every global
+order `G` of the workers' events, and every point `p` at which Ctrl-C / SIGTERM arrives (or
+none): exactly one `restore`, it is the last event — no benchmark is started after it — and no
+benchmark process is running when it is issued (the running ones are killed first; without an
+interrupt this needs `G` to end what it starts, which the workers do before they are joined). -/
+theorem c20_par_restore_once (prof : Bool) (rep : Report) (g : Bool → Bool → List BodyEv)
+    (at? : Option Nat) (e : Ending) (h : changed rep = true)
+    (hclosed : at? = none → ∀ n s, openIn (g n s) [] = []) :
+    ∃ pre ws wn, (parSession prof rep g at? e).1 = pre ++ [.sudoRestore ws wn] ∧
+      (∀ x ∈ pre, x.isRestore = false) ∧ openProcs pre [] = [] := by
+  unfold changed at h
+  cases hm : minimize rep with
+  | none => simp [hm] at h
+  | some res =>
+    simp only [hm, Bool.not_eq_true'] at h
+    cases at? with
+    | none =>
+      refine ⟨[.sudoMinimize prof] ++ (g res.useNice res.useShielding).map .body,
+        !res.useShielding, !res.useNice, ?_, ?_, ?_⟩
+      · simp [parSession, hm, restoreNoise, h]
+      · intro x hx
+        simp only [List.mem_append, List.mem_singleton, List.mem_map] at hx
+        rcases hx with rfl | ⟨b, _, rfl⟩ <;> rfl
+      · rw [openProcs_eq_openIn]
+        simp [bodyOf_append, bodyOf, bodyOf_map, hclosed rfl]
+    | some p =>
+      refine ⟨[.sudoMinimize prof] ++ ((g res.useNice res.useShielding).take p).map .body ++
+        (abortTail (res.useNice || res.useShielding)
+          (openIn ((g res.useNice res.useShielding).take p) [])).map .body,
+        !res.useShielding, !res.useNice, ?_, ?_, ?_⟩
+      · simp [parSession, hm, restoreNoise, h]
+      · intro x hx
+        simp only [List.mem_append, List.mem_singleton, List.mem_map] at hx
+        rcases hx with (rfl | ⟨b, _, rfl⟩) | ⟨b, _, rfl⟩ <;> rfl
+      · rw [openProcs_eq_openIn]
+        simp only [bodyOf_append, bodyOf, bodyOf_map, List.nil_append, List.reverse_nil]
+        rw [openIn_append, openIn_abortTail]
+        simp
+
+/-- FULL STATEMENT for the pinned tree's scheduler (false): the interrupt reaches only the
+main thread, `restore` is issued in the middle of the workers' events -/
+theorem c20_par_pinned_full_fails :
+    ¬ ∀ (prof : Bool) (rep : Report) (g : Bool → Bool → List BodyEv) (p : Nat) (e : Ending),
+        changed rep = true → (∀ n s, openIn (g n s) [] = []) →
+        RestoreAfterEnds (parSessionPinned prof rep g (some p) e).1 := by
+  intro h
+  have := h false (.json (some .yes) (some .yes) [])
+    (fun _ _ => [.start 1, .stop 1, .start 2, .stop 2]) 1 .interrupt (by decide) (by decide)
+    [.sudoMinimize false, .body (.start 1)] false false
+    [.body (.stop 1), .body (.start 2), .body (.stop 2)] (by decide)
+  revert this
+  decide
+
+/-- … and on the pinned tree every remaining benchmark is still executed after the restore -/
+theorem c20_par_pinned_work_continues (prof : Bool) (rep : Report) (g : Bool → Bool → List BodyEv)
+    (p : Nat) (e : Ending) (res : Result) (hm : minimize rep = some res) :
+    bodyOf (parSessionPinned prof rep g (some p) e).1 = g res.useNice res.useShielding := by
+  have hr : bodyOf (restoreNoise (some res)) = [] := by
+    simp only [restoreNoise]; split <;> rfl
+  simp only [parSessionPinned, hm, bodyOf_append, bodyOf, bodyOf_map, hr, List.nil_append,
+    List.append_nil]
+  exact List.take_append_drop p _
+
 /-! ## "wrapped with exactly the capabilities the start-up step reported" -/
 
 /-- the command is prefixed with
@@ -194,6 +349,285 @@ theorem c20_caps_as_reported (nice shield : Option JV) (others : List JV) :
     ∃ res, minimize (.json nice shield others) = some res ∧
       res.useNice = truthy nice ∧ res.useShielding = truthy shield := by
   exact ⟨_, rfl, rfl, rfl⟩
+
+/-! ## `denoise.py` itself: `restore` undoes what `minimize` changed
+
+docs/denoise.md: "`restore` will set the system back to a state that is the presumed
+standard state".  `roundTrip` is `minimize` followed by `restore` with the flags ReBench
+derives from what `minimize` reported. -/
+
+theorem untouched_flatten (L : List (List Act)) (x : Setting) (h : ∀ g ∈ L, Untouched g x) :
+    Untouched L.flatten x := by
+  induction L with
+  | nil => exact untouched_nil x
+  | cons g L ih =>
+    simp only [List.flatten_cons]
+    exact untouched_append (h g (by simp)) (ih (fun g' hg' => h g' (List.mem_cons_of_mem _ hg')))
+
+theorem focusL (h : Host) (s : Sys) (L R : List (List Act)) (mid : List Act) (x : Setting)
+    (hL : ∀ g ∈ L, Untouched g x) (hR : ∀ g ∈ R, Untouched g x) :
+    applyActs h s (L.flatten ++ mid ++ R.flatten) x = applyActs h s mid x :=
+  focus h s _ mid _ x (untouched_flatten L x hL) (untouched_flatten R x hR)
+
+theorem perf_case (h : Host) (n : Nat) (nice shield prof : Bool) (s0 : Sys) (x : Setting)
+    (hx : x.isPerf = true) :
+    (roundTrip h n nice shield prof s0).1 x ≠ s0 x →
+    (roundTrip h n nice shield prof s0).2 x = stdSys x := by
+  have hmP : (minimizeActs h n nice shield prof).1 =
+      [(governorActs h vPerformance 0 n).1, (noTurboActs h ['1']).1].flatten ++ (perfConfigActs h prof).1 ++
+        [(if nice then [Act.niceProbe] else []),
+         (if shield && h.hasCset then [Act.shieldOn (shieldLo n) (shieldHi n)] else [])].flatten := by
+    simp [minimizeActs, List.append_assoc]
+  have hrP : (restoreActs h n (minimizeActs h n nice shield prof).2.shielding).1 =
+      [(governorActs h vPowersave 0 n).1, (noTurboActs h ['0']).1].flatten ++ (perfRestoreActs h).1 ++
+        [(if (minimizeActs h n nice shield prof).2.shielding then [Act.shieldReset] else [])].flatten := by
+    simp [restoreActs, List.append_assoc]
+  have hng : ∀ j, x ≠ .governor j := by intro j e; subst e; simp [Setting.isPerf] at hx
+  have hnt : x ≠ .noTurbo := by intro e; subst e; simp [Setting.isPerf] at hx
+  have hns : x ≠ .shield := by intro e; subst e; simp [Setting.isPerf] at hx
+  have hL : ∀ v w, ∀ g ∈ [(governorActs h v 0 n).1, (noTurboActs h w).1], Untouched g x := by
+    intro v w g hg
+    simp only [List.mem_cons, List.not_mem_nil, or_false] at hg
+    rcases hg with rfl | rfl
+    · exact governor_untouched h _ _ _ _ hng
+    · exact noTurbo_untouched h _ _ hnt
+  simp only [roundTrip]
+  rw [hmP, hrP, focusL h _ _ _ _ x (hL _ _), focusL h _ _ _ _ x (hL _ _)]
+  · cases hw1 : h.writable .perfMaxPercent <;> cases hw2 : h.writable .perfSampleRate <;>
+      cases hw3 : h.writable .perfParanoid <;> cases prof <;> cases x <;>
+      simp [Setting.isPerf] at hx <;>
+      simp [perfConfigActs, perfRestoreActs, hw1, hw2, hw3, applyActs, applyAct, Sys.upd, stdSys]
+  · intro g hg
+    simp only [List.mem_singleton] at hg; subst hg
+    exact shieldReset_untouched _ _ hns
+  · intro g hg
+    simp only [List.mem_cons, List.not_mem_nil, or_false] at hg
+    rcases hg with rfl | rfl
+    · exact nice_untouched _ _
+    · exact shieldOn_untouched _ _ _ _ hns
+
+/-- Every setting that `minimize` changed is back at its standard value after `restore` —
+for every number of cores, every flag combination, every initial state and every pattern of
+files that cannot be written (the script then reports "failed" and stops that step: what it
+could not change it does not need to undo), provided `cset shield -r` works. -/
+theorem c20_denoise_restore_undoes (h : Host) (hr : h.shieldResets = true) (n : Nat)
+    (nice shield prof : Bool) (s0 : Sys) (x : Setting) :
+    (roundTrip h n nice shield prof s0).1 x ≠ s0 x →
+    (roundTrip h n nice shield prof s0).2 x = stdSys x := by
+  -- the five groups of `minimize`, the four of `restore`
+  have hm : (minimizeActs h n nice shield prof).1 =
+      [].flatten ++ (governorActs h vPerformance 0 n).1 ++
+        [(noTurboActs h ['1']).1, (perfConfigActs h prof).1,
+         (if nice then [Act.niceProbe] else []),
+         (if shield && h.hasCset then [Act.shieldOn (shieldLo n) (shieldHi n)] else [])].flatten := by
+    simp [minimizeActs, List.append_assoc]
+  cases x with
+  | governor j =>
+    have e1 : (roundTrip h n nice shield prof s0).1 (.governor j) =
+        if govWritten h 0 n j then vPerformance else s0 (.governor j) := by
+      simp only [roundTrip]
+      rw [hm, focusL h s0 [] _ _ (.governor j) (by simp)]
+      · exact governorActs_effect h vPerformance n 0 s0 j
+      · intro g hg
+        simp only [List.mem_cons, List.not_mem_nil, or_false] at hg
+        rcases hg with rfl | rfl | rfl | rfl
+        · exact noTurbo_untouched h _ _ (by simp)
+        · exact perfConfig_untouched h prof _ rfl
+        · exact nice_untouched _ _
+        · exact shieldOn_untouched _ _ _ _ (by simp)
+    have e2 : ∀ s1 : Sys, applyActs h s1 (restoreActs h n (minimizeActs h n nice shield prof).2.shielding).1
+        (.governor j) = if govWritten h 0 n j then vPowersave else s1 (.governor j) := by
+      intro s1
+      have hrs : (restoreActs h n (minimizeActs h n nice shield prof).2.shielding).1 =
+          [].flatten ++ (governorActs h vPowersave 0 n).1 ++
+            [(noTurboActs h ['0']).1, (perfRestoreActs h).1,
+             (if (minimizeActs h n nice shield prof).2.shielding then [Act.shieldReset] else [])].flatten := by
+        simp [restoreActs, List.append_assoc]
+      rw [hrs, focusL h s1 [] _ _ (.governor j) (by simp)]
+      · exact governorActs_effect h vPowersave n 0 s1 j
+      · intro g hg
+        simp only [List.mem_cons, List.not_mem_nil, or_false] at hg
+        rcases hg with rfl | rfl | rfl
+        · exact noTurbo_untouched h _ _ (by simp)
+        · exact perfRestore_untouched h _ rfl
+        · exact shieldReset_untouched _ _ (by simp)
+    intro hne
+    rw [e1] at hne
+    have e2' := e2 (roundTrip h n nice shield prof s0).1
+    simp only [roundTrip] at e2' ⊢
+    rw [e2']
+    cases hw : govWritten h 0 n j with
+    | false => simp [hw] at hne
+    | true => simp [stdSys]
+  | noTurbo =>
+    have hmT : (minimizeActs h n nice shield prof).1 =
+        [(governorActs h vPerformance 0 n).1].flatten ++ (noTurboActs h ['1']).1 ++
+          [(perfConfigActs h prof).1, (if nice then [Act.niceProbe] else []),
+           (if shield && h.hasCset then [Act.shieldOn (shieldLo n) (shieldHi n)] else [])].flatten := by
+      simp [minimizeActs, List.append_assoc]
+    have hrT : (restoreActs h n (minimizeActs h n nice shield prof).2.shielding).1 =
+        [(governorActs h vPowersave 0 n).1].flatten ++ (noTurboActs h ['0']).1 ++
+          [(perfRestoreActs h).1,
+           (if (minimizeActs h n nice shield prof).2.shielding then [Act.shieldReset] else [])].flatten := by
+      simp [restoreActs, List.append_assoc]
+    have hL : ∀ v, ∀ g ∈ [(governorActs h v 0 n).1], Untouched g .noTurbo := by
+      intro v g hg; simp only [List.mem_singleton] at hg; subst hg
+      exact governor_untouched h _ _ _ _ (by intro j; simp)
+    simp only [roundTrip]
+    rw [hmT, hrT, focusL h _ _ _ _ .noTurbo (hL _), focusL h _ _ _ _ .noTurbo (hL _)]
+    · by_cases hw : h.writable .noTurbo = true
+      · intro _; simp [noTurboActs, hw, applyActs, applyAct, Sys.upd, stdSys]
+      · intro hne; simp [noTurboActs, hw, applyActs] at hne
+    · intro g hg
+      simp only [List.mem_cons, List.not_mem_nil, or_false] at hg
+      rcases hg with rfl | rfl
+      · exact perfRestore_untouched h _ rfl
+      · exact shieldReset_untouched _ _ (by simp)
+    · intro g hg
+      simp only [List.mem_cons, List.not_mem_nil, or_false] at hg
+      rcases hg with rfl | rfl | rfl
+      · exact perfConfig_untouched h prof _ rfl
+      · exact nice_untouched _ _
+      · exact shieldOn_untouched _ _ _ _ (by simp)
+  | perfMaxPercent => exact perf_case h n nice shield prof s0 .perfMaxPercent rfl
+  | perfSampleRate => exact perf_case h n nice shield prof s0 .perfSampleRate rfl
+  | perfParanoid => exact perf_case h n nice shield prof s0 .perfParanoid rfl
+  | shield =>
+    have hmS : (minimizeActs h n nice shield prof).1 =
+        [(governorActs h vPerformance 0 n).1, (noTurboActs h ['1']).1, (perfConfigActs h prof).1,
+         (if nice then [Act.niceProbe] else [])].flatten ++
+          (if shield && h.hasCset then [Act.shieldOn (shieldLo n) (shieldHi n)] else []) ++
+          [].flatten := by
+      simp [minimizeActs, List.append_assoc]
+    have hrS : (restoreActs h n (minimizeActs h n nice shield prof).2.shielding).1 =
+        [(governorActs h vPowersave 0 n).1, (noTurboActs h ['0']).1, (perfRestoreActs h).1].flatten ++
+          (if (minimizeActs h n nice shield prof).2.shielding then [Act.shieldReset] else []) ++
+          [].flatten := by
+      simp [restoreActs, List.append_assoc]
+    simp only [roundTrip]
+    rw [hmS, hrS, focusL h _ _ [] _ .shield _ (by simp), focusL h _ _ [] _ .shield _ (by simp)]
+    · have hsh : (minimizeActs h n nice shield prof).2.shielding
+          = (shield && h.hasCset && h.shieldActivates) := rfl
+      rw [hsh]
+      by_cases hc : (shield && h.hasCset) = true
+      · by_cases ha : h.shieldActivates = true
+        · intro _; simp [hc, ha, hr, applyActs, applyAct, Sys.upd, stdSys]
+        · intro hne; simp [hc, ha, applyActs, applyAct] at hne
+      · intro hne; simp [hc, applyActs] at hne
+    · intro g hg
+      simp only [List.mem_cons, List.not_mem_nil, or_false] at hg
+      rcases hg with rfl | rfl | rfl
+      · exact governor_untouched h _ _ _ _ (by intro j; simp)
+      · exact noTurbo_untouched h _ _ (by simp)
+      · exact perfRestore_untouched h _ rfl
+    · intro g hg
+      simp only [List.mem_cons, List.not_mem_nil, or_false] at hg
+      rcases hg with rfl | rfl | rfl | rfl
+      · exact governor_untouched h _ _ _ _ (by intro j; simp)
+      · exact noTurbo_untouched h _ _ (by simp)
+      · exact perfConfig_untouched h prof _ rfl
+      · exact nice_untouched _ _
+
+/-- an action that can only move a setting to its standard value -/
+def Act.toStd : Act → Prop
+  | .write k v => v = stdSys k
+  | .shieldOn _ _ => False
+  | _ => True
+
+theorem applyActs_toStd (h : Host) (as : List Act) (hs : ∀ a ∈ as, a.toStd) (x : Setting) :
+    ∀ s : Sys, applyActs h s as x = stdSys x ∨ applyActs h s as x = s x := by
+  induction as with
+  | nil => intro s; right; rfl
+  | cons a as ih =>
+    intro s
+    have hstep : applyAct h s a x = stdSys x ∨ applyAct h s a x = s x := by
+      have ha := hs a (by simp)
+      cases a with
+      | write k v =>
+        simp only [Act.toStd] at ha
+        simp only [applyAct, Sys.upd]
+        by_cases e : x = k
+        · subst e; left; simp [ha]
+        · right; simp [e]
+      | touch k => right; rfl
+      | niceProbe => right; rfl
+      | shieldOn lo hi => exact absurd ha (by simp [Act.toStd])
+      | shieldReset =>
+        simp only [applyAct]
+        split
+        · simp only [Sys.upd]
+          by_cases e : x = .shield
+          · subst e; left; simp [stdSys]
+          · right; simp [e]
+        · right; rfl
+    have := ih (fun b hb => hs b (List.mem_cons_of_mem _ hb)) (applyAct h s a)
+    simp only [applyActs, List.foldl_cons] at this ⊢
+    rcases this with h1 | h1
+    · left; exact h1
+    · rcases hstep with h2 | h2
+      · left; rw [h1, h2]
+      · right; rw [h1, h2]
+
+theorem restoreActs_toStd (h : Host) (n : Nat) (sh : Bool) : ∀ a ∈ (restoreActs h n sh).1, a.toStd := by
+  intro a ha
+  simp only [restoreActs, List.mem_append] at ha
+  rcases ha with ((ha | ha) | ha) | ha
+  · obtain ⟨j, rfl⟩ := governorActs_targets h vPowersave n 0 a ha
+    simp [Act.toStd, stdSys]
+  · unfold noTurboActs at ha
+    split at ha
+    · simp at ha; subst ha; simp [Act.toStd, stdSys]
+    · simp at ha
+  · unfold perfRestoreActs at ha
+    (repeat' split at ha) <;> simp at ha <;>
+      (try rcases ha with rfl | rfl | rfl) <;> (try rcases ha with rfl | rfl) <;> (try subst ha) <;>
+      simp [Act.toStd, stdSys]
+  · cases sh <;> simp at ha
+    subst ha; simp [Act.toStd]
+
+/-- `restore` moves settings only to their standard values (whatever state it finds) -/
+theorem c20_denoise_restore_only_to_standard (h : Host) (n : Nat) (sh : Bool) (s : Sys) (x : Setting) :
+    applyActs h s (restoreActs h n sh).1 x = stdSys x ∨ applyActs h s (restoreActs h n sh).1 x = s x :=
+  applyActs_toStd h _ (restoreActs_toStd h n sh) x s
+
+/-- from the presumed standard state the round trip is the identity: after `minimize` and
+`restore` every setting has its standard value again, for every host and flag combination -/
+theorem c20_denoise_roundtrip_standard (h : Host) (hr : h.shieldResets = true) (n : Nat)
+    (nice shield prof : Bool) (x : Setting) :
+    (roundTrip h n nice shield prof stdSys).2 x = stdSys x := by
+  by_cases hc : (roundTrip h n nice shield prof stdSys).1 x = stdSys x
+  · have := c20_denoise_restore_only_to_standard h n (minimizeActs h n nice shield prof).2.shielding
+      (roundTrip h n nice shield prof stdSys).1 x
+    simp only [roundTrip] at this hc ⊢
+    rcases this with h1 | h1
+    · exact h1
+    · rw [h1, hc]
+  · exact c20_denoise_restore_undoes h hr n nice shield prof stdSys x hc
+
+/-- FULL STATEMENT "the round trip gives back the state it found" (false: `restore` writes the
+*presumed* standard values): a machine whose governor was `ondemand` ends with `powersave` -/
+theorem c20_denoise_roundtrip_identity_full_fails :
+    ¬ ∀ (h : Host) (n : Nat) (nice shield prof : Bool) (s0 : Sys) (x : Setting),
+        h.shieldResets = true → (roundTrip h n nice shield prof s0).2 x = s0 x := by
+  intro hall
+  have := hall ⟨fun _ => true, false, false, true, false⟩ 1 false false false
+    (fun _ => ['o', 'n', 'd', 'e', 'm', 'a', 'n', 'd']) (.governor 0) rfl
+  revert this
+  decide
+
+/-- the shield is reset only if `minimize` reported one -/
+theorem c20_denoise_shield_reset_only_if_reported (h : Host) (n : Nat) (nice shield prof : Bool)
+    (s0 : Sys) (hsh : (minimizeActs h n nice shield prof).2.shielding = false) :
+    (roundTrip h n nice shield prof s0).2 .shield = (roundTrip h n nice shield prof s0).1 .shield := by
+  simp only [roundTrip, hsh]
+  apply applyActs_untouched
+  intro a ha
+  simp only [restoreActs, List.mem_append] at ha
+  rcases ha with ((ha | ha) | ha) | ha
+  · exact governor_untouched h _ _ _ _ (by intro j; simp) a ha
+  · exact noTurbo_untouched h _ _ (by simp) a ha
+  · exact perfRestore_untouched h _ rfl a ha
+  · simp at ha
 
 /-! ## "the shield's core range always lies within 0..cores-1" -/
 
